@@ -5,6 +5,7 @@ import (
 	"os"
 	"path/filepath"
 	"sort"
+	"strings"
 	"time"
 
 	astisub "github.com/asticode/go-astisub"
@@ -79,6 +80,13 @@ func c11Check(cs []tcue) string {
 	snaps := make([]string, len(cs))
 	for k, c := range cs {
 		it := textItem(time.Duration(c.S), time.Duration(c.E), c.T)
+		if strings.Contains(c.T, "\n") {
+			// a multi-line cue (roll-up captions share their first lines)
+			it.Lines = nil
+			for _, l := range strings.Split(c.T, "\n") {
+				it.Lines = append(it.Lines, astisub.Line{Items: []astisub.LineItem{{Text: l}}})
+			}
+		}
 		it.Index = k
 		sub.Items = append(sub.Items, it)
 		snaps[k] = snapItem(it)
@@ -189,6 +197,9 @@ func c11Random(r *fw.Rand) ([]tcue, int64) {
 	n := r.Intn(61)
 	unit := fw.Pick(r, []int64{1, 1000000, 1000000000})
 	texts := []string{"a", "b", "c"}[:r.Range(1, 3)]
+	if r.P(1, 3) {
+		texts = []string{"Hello", "Hello\nworld", "Hello\nworld\nagain"}[:r.Range(2, 3)]
+	}
 	cs := make([]tcue, n)
 	for i := range cs {
 		s := r.I64n(200) * unit
